@@ -508,10 +508,11 @@ impl Ingester {
         // Extract metric name if available for shard key computation
         let metric_name = if let Some(col) = batch.column_by_name("metric_name") {
             use arrow_array::cast::AsArray;
-            if let Some(arr) = col.as_string_opt::<i32>() {
-                arr.value(0).to_string()
-            } else {
-                "unknown".to_string()
+            use arrow_array::Array;
+            match col.as_string_opt::<i32>() {
+                // An empty batch has no first row to take the metric name from
+                Some(arr) if !arr.is_empty() => arr.value(0).to_string(),
+                _ => "unknown".to_string(),
             }
         } else {
             "unknown".to_string()
@@ -520,7 +521,11 @@ impl Ingester {
         // Extract timestamp for time-based sharding
         let timestamp = if let Some(col) = batch.column_by_name("timestamp") {
             use arrow_array::cast::AsArray;
-            if let Some(arr) = col.as_primitive_opt::<arrow_array::types::TimestampNanosecondType>()
+            use arrow_array::Array;
+            if col.is_empty() {
+                self.clock.now_nanos()
+            } else if let Some(arr) =
+                col.as_primitive_opt::<arrow_array::types::TimestampNanosecondType>()
             {
                 arr.value(0)
             } else if let Some(arr) = col.as_primitive_opt::<arrow_array::types::Int64Type>() {
